@@ -39,7 +39,9 @@ var c13Conn = []respVariant{{"Upgrade", false, true, false}, {"upgrade", false, 
 var c13Upg = []respVariant{{"websocket", false, true, false}, {"WebSocket", false, true, false}, {"foo, websocket", false, true, false}, {"h2c", false, false, false}, {"", true, false, false},
 	{"websocket2", false, false, false}, {"notwebsocket", false, false, false}, {"h2c, x-websocket-legacy", false, false, false}}
 var c13Accept = []string{"correct", "other-key", "missing", "truncated", "case-swapped", "padded", "doubled-header", "correct-plus-garbage"}
-var c13Proto = []string{"none", "requested", "requested-other-case", "not-requested"}
+// (a server selects exactly one subprotocol: a list, or a second header line, that
+// merely contains a requested name is not a valid answer)
+var c13Proto = []string{"none", "requested", "requested-other-case", "not-requested", "list-containing-requested", "two-lines-one-requested"}
 
 type extVariant struct {
 	val  string
@@ -158,10 +160,10 @@ func runC13(r *Run) {
 
 	status := c13Status[si]
 	cv, uv, ev := c13Conn[ci], c13Upg[ui], c13Ext[ei]
-	if (pi == 1 || pi == 2) && nSub == 0 {
+	if (pi == 1 || pi == 2 || pi >= 4) && nSub == 0 {
 		pi = 0
 	}
-	protoOK := pi != 3
+	protoOK := pi != 3 && pi < 4
 	protoDC := pi == 2
 	extOK := ev.val == "" || mode != websocket.CompressionDisabled && ev.ok
 	accept := status == 101 && cv.ok && uv.ok && ai == 0 && protoOK && extOK
@@ -263,6 +265,10 @@ func runC13(r *Run) {
 			fmt.Fprintf(&resp, "Sec-WebSocket-Protocol: %s\r\n", strings.ToUpper(subs[0]))
 		case 3:
 			resp.WriteString("Sec-WebSocket-Protocol: other\r\n")
+		case 4:
+			fmt.Fprintf(&resp, "Sec-WebSocket-Protocol: evil, %s\r\n", subs[0])
+		case 5:
+			fmt.Fprintf(&resp, "Sec-WebSocket-Protocol: evil\r\nSec-WebSocket-Protocol: %s\r\n", subs[0])
 		}
 		if ev.val != "" {
 			for _, line := range strings.Split(ev.val, "\n") {
